@@ -24,7 +24,7 @@ Definition kinv (rws : list crow) (ri : option nat) (o0 o : option rowdata) (p :
   | None =>
       (lives p rws = [] /\ o = o0) \/
       (exists r d0, lives p rws = [r] /\ c_pk r = p /\ c_ty r = TDel /\ o0 = Some d0 /\
-         idx_same (c_data r) d0 = true /\ o = None)
+         c_data r = d0 /\ o = None)
   end.
 
 Record inv (st : state) (m0 m : tbl) : Prop := mkInv {
